@@ -146,8 +146,8 @@ pub fn run_script(s: &Script, plan: Option<Plan>) -> Result<RunResult, Fail> {
             Ok(()) => {
                 if let Some(j) = st.point {
                     if first_err.is_none() {
-                        // the bytes on the medium at the instant flush returned Ok
-                        points[j] = Some(reopen(shared.bytes()));
+                        // the bytes durably on the medium at the instant flush returned Ok
+                        points[j] = Some(reopen(shared.durable_bytes()));
                     }
                 }
             }
